@@ -381,19 +381,55 @@ func runC17(c *Ctx) {
 		}
 		c.Ob("DUPLICATE-OUTPUT", "bufgen/validate-before-write", token.NoPos, okOrder, true, "ValidatePluginResponses runs (inside the plugin execution step) before the first AddResponse: %v", okOrder)
 		// (6) indexed results: responses[index] = … in job closures
+		// decided on SSA over execPlugins and the job constructors it calls: every store into a slice of plugin
+		// responses is addressed by the Index field of the plugin's slicesext.Indexed wrapper
 		okIdx := false
-		for _, fr := range p.FuncsOf(pkG) {
-			if fr.Decl.Name.Name != "execPlugins" {
-				continue
-			}
-			ast.Inspect(fr.Decl.Body, func(n ast.Node) bool {
-				if as, ok := n.(*ast.AssignStmt); ok && len(as.Lhs) == 1 {
-					if ix, ok := as.Lhs[0].(*ast.IndexExpr); ok && exprString(ix.X) == "responses" && strings.Contains(exprString(ix.Index), "Index") {
-						okIdx = true
+		if ep := p.Func("private/buf/bufgen", "generator.execPlugins"); ep != nil && ep.Obj != nil {
+			stores, byIndex := 0, 0
+			for _, f := range reachSSA(p.SSAFunc(ep.Obj), 2) {
+				if f.Pkg == nil || f.Pkg.Pkg != pkG.Types {
+					continue
+				}
+				for _, b := range f.Blocks {
+					for _, ins := range b.Instrs {
+						st, ok := ins.(*ssa.Store)
+						if !ok {
+							continue
+						}
+						ia, ok := st.Addr.(*ssa.IndexAddr)
+						if !ok {
+							continue
+						}
+						sl, ok := ia.X.Type().Underlying().(*types.Slice)
+						if !ok {
+							continue
+						}
+						pt, ok := sl.Elem().(*types.Pointer)
+						if !ok || namedName(pt.Elem()) != "CodeGeneratorResponse" {
+							continue
+						}
+						stores++
+						fromIndex := false
+						sliceBack(ia.Index, func(x ssa.Value) bool {
+							switch y := x.(type) {
+							case *ssa.Field:
+								if st, ok := y.X.Type().Underlying().(*types.Struct); ok && st.Field(y.Field).Name() == "Index" {
+									fromIndex = true
+								}
+							case *ssa.FieldAddr:
+								if st, ok := y.X.Type().Underlying().(*types.Pointer).Elem().Underlying().(*types.Struct); ok && st.Field(y.Field).Name() == "Index" {
+									fromIndex = true
+								}
+							}
+							return !fromIndex
+						})
+						if fromIndex {
+							byIndex++
+						}
 					}
 				}
-				return true
-			})
+			}
+			okIdx = stores > 0 && stores == byIndex
 		}
 		c.Ob("INDEXED-RESULTS", "bufgen.execPlugins/responses-by-index", token.NoPos, okIdx, true, "each job stores its response at the plugin's original configuration index (R-GOAGG index-addressed store): %v", okIdx)
 		// (6b) per-group state (added after seeded change C17-b): the loop over plugin groups ranges over a map; apart from
